@@ -352,7 +352,7 @@ fn eval_dna(dna_bytes: &[u8], ctx: &mut Ctx) -> Result<(), (Failure, Value)> {
 
 fn worker(ctx: &mut Ctx) {
     let cases = match ctx.cfg.tier {
-        Tier::Quick => 2_000u64,
+        Tier::Quick => 5_000u64,
         Tier::Thorough => 40_000u64,
     };
     let run = DnaRun {
